@@ -29,12 +29,18 @@ def scenarios(seed, tier):
     for i in range(n):
         r2 = random.Random(rnd.getrandbits(48))
         stream = ['uncoupled', 'storage', 'any', 'takes'][i % 4]
+        if i % 12 == 9:
+            stream = 'blocks'
         if stream == 'uncoupled':
             s = gen.gen_portfolio(r2, tmax=12, tz_prob=0.1, kinds=['simple', 'transport', 'multi_nt', 'simple', 'plant_lp'], allow_mip=False,
                                   allow_periodic=False, allow_freq=False)
         elif stream == 'storage':
             s = gen.gen_portfolio(r2, tmax=12, tz_prob=0.1, kinds=['simple', 'transport', 'storage_se', 'storage_se'], allow_mip=False,
                                   allow_periodic=False, allow_freq=False, allow_blocks=False)
+        elif stream == 'blocks':
+            # storages optimised in time blocks that coincide with the intervals (start level = end level): nothing couples
+            s = gen.gen_portfolio(r2, tmax=12, tz_prob=0.0, kinds=['simple', 'storage_se', 'storage_se', 'transport'], allow_mip=False,
+                                  allow_periodic=False, allow_freq=False, allow_blocks=False, grids=[g_ for g_ in gen.GRIDS if g_[2] <= pd.Timedelta(hours=4)])
         elif stream == 'takes':
             # contracts / transports with take periods spanning several intervals: the only coupling; the interval shares add up
             s = gen.gen_portfolio(r2, tmax=12, tz_prob=0.1, kinds=['contract', 'contract', 'ext_transport', 'simple'], allow_mip=False,
@@ -46,6 +52,16 @@ def scenarios(seed, tier):
         s['stream'] = stream
         s['parts'] = r2.choice([2, 3, 3, 4, 5])
         s['odd'] = r2.random() < 0.4      # interval not aligned with the horizon
+        if stream == 'blocks':
+            s['odd'] = False
+            s.pop('late_start', None)
+            from .. import scen as _scen
+            iv = interval_of(s, _scen.make_grid(s['grid']))
+            for a in s['assets']:
+                if a['type'] == 'Storage':
+                    a['args']['block_size'] = iv
+                    a['args'].pop('start', None)
+                    a['args'].pop('end', None)
         yield 'gen%d' % i, s
 
 
@@ -197,6 +213,9 @@ def run_case(scn, drv):
         tolu = 2e-6 * max(1.0, abs(Vu), abs(Vs))
         if scn['stream'] == 'uncoupled' and abs(Vs - Vu) > tolu:
             viol('nothing couples the intervals, but split value %.8g differs from unsplit %.8g' % (Vs, Vu), what='equals_unsplit')
+        if scn['stream'] == 'blocks' and abs(Vs - Vu) > tolu:
+            viol('storage blocks coincide with the intervals (start level = end level), nothing else couples them, but split value %.8g differs from unsplit %.8g' % (Vs, Vu),
+                 what='equals_unsplit_blocks', sign='split_lower' if Vs < Vu else 'split_higher')
         if scn['stream'] == 'storage' and Vs > Vu + tolu:
             viol('storages with start level = end level are the only coupling, but split value %.8g exceeds unsplit %.8g' % (Vs, Vu), what='le_unsplit')
         if scn['stream'] in ('uncoupled', 'storage', 'takes'):
